@@ -623,6 +623,66 @@ def rule_branch_accounting(ck, facts):
             ck.bad(R, key, "%s%s builds a %s and evaluates %d sub-expression(s) for its alternatives without restoring ContextData::push_sum between them: the offsets pushed by one alternative are counted as if every run executed them, so a later alternative starts from the wrong position and the single pop at the function end does not match the pushes of the path taken (cursor not back at the origin, cells outside the published layout)" % (f.short, (" (arm %s)" % arm) if arm else "", st[5][1][3], evals), f.where(st))
 
 
+def rule_alternative_advance(ck, facts):
+    """the alternatives of a branch lie side by side in the layout: each starts where the previous one ended"""
+    R = "C05.branch-accounting"
+    lang = facts.crate(roles.LANG)
+    mg = [f for f in lang.fns if "::compiler::mirgen::" in f.path and f.kind != "promoted" and not roles.is_derived(f)]
+    acc = {f.path: _acc_assignments(f) for f in mg}
+    # the helper that evaluates one alternative: restores push_sum, sets next_state_offset from its argument and runs
+    # a closure it is given (found by role)
+    helpers = set()
+    for f in mg:
+        if f.kind not in ("assoc", "fn"):
+            continue
+        kinds = {(fld, cls) for _, fld, cls in acc[f.path]}
+        calls_param = any(callee(t) is None or (callee(t) or "").endswith("call_once") for _, t in f.calls())
+        if ("push_sum", "restore") in kinds and any(fld == "next_state_offset" for fld, _ in kinds) and calls_param:
+            helpers.add(f.path)
+    ck.require(R, len(helpers) >= 1, "anchor|alternative-helper", "the helper that evaluates one alternative of a branch (restores push_sum around a closure and starts it at a given offset) was not found")
+    sizers = {f.path for f in mg if f.kind in ("assoc", "fn") and f.d["argc"] == 1 and any((callee(t) or "").split("::")[-1] == "total_size" for g in facts.family(roles.LANG, f.path) for _, t in g.calls()) and not states_result(f)}
+    n = 0
+    for f in mg:
+        sites = [(b, t) for b, t in f.calls() if (callee(t) or "") in helpers]
+        if not sites:
+            continue
+        call_blocks = {b for b, _ in sites}
+        publish = set()
+        for st, fld, cls in acc[f.path]:
+            if fld == "next_state_offset":
+                publish |= {b for b, s2 in f.all_stmts() if s2 is st}
+        for b, t in sites:
+            n += 1
+            # locals derived from the call's result
+            tainted = {t[6][0]}
+            changed = True
+            while changed:
+                changed = False
+                for bb, s2 in f.all_stmts():
+                    if s2[KIND] == "a" and s2[4][0] not in tainted and any(pl[0] in tainted for pl, _m in _rv_places(s2[5])):
+                        tainted.add(s2[4][0])
+                        changed = True
+                for bb, t2 in f.calls():
+                    if (callee(t2) or "").split("::")[-1] in ("deref", "as_slice", "as_ref", "borrow") and any(a[0] in ("cp", "mv") and a[1][0] in tainted for a in t2[5]) and t2[6][0] not in tainted:
+                        tainted.add(t2[6][0])
+                        changed = True
+            measured = {bb for bb, t2 in f.calls() if (callee(t2) or "") in sizers and any(a[0] in ("cp", "mv") and a[1][0] in tainted for a in t2[5])}
+            nxt = t[7]
+            key = "advance|%s" % (f.short.split("::", 1)[-1] if f.kind == "closure" else f.short.split("::")[-1])
+            if nxt is None:
+                continue
+            seen = reachable(f, nxt, avoid=measured)
+            hits = [x for x in seen if x in call_blocks or x in publish]
+            # leaving a closure body without measuring hands the same start to the next alternative
+            if f.kind == "closure" and any(f.term(x)[KIND] == "return" for x in seen):
+                hits.append("return")
+            if hits:
+                ck.bad(R, key, "%s: after evaluating one alternative (the call of %s at line %s) there is a way to the next alternative / to the offset published for the code after the branch that does not add the size of the alternative's cells (no call of %s on its state list): the next alternative or the next stateful call is placed on top of these cells, so the published layout and the run-time offsets disagree" % (f.short, (callee(t) or "").split("::")[-1], t[0], "/".join(sorted(x.split("::")[-1] for x in sizers)) or "the size function"), f.where(t))
+            else:
+                ck.ok(R, key, {"fn": f.short})
+    ck.floor(R, "alternative_evaluations", n, 8)
+
+
 def rule_accounting(ck, facts):
     R = "C05.accounting"
     ck.rule(R, "every construction of Instruction::PushStateOffset(n) in the MIR generator happens on a path that also adds n to ContextData.push_sum (the amount popped at function exit); PopStateOffset is emitted with push_sum (function end) or with the difference to a saved push_sum that is then written back (end of a branch alternative)")
@@ -785,6 +845,7 @@ def run(ck, facts, tier):
     rule_no_dropped_states(ck, facts)
     rule_accounting(ck, facts)
     rule_branch_accounting(ck, facts)
+    rule_alternative_advance(ck, facts)
     rule_cursor(ck, facts)
     prims.rule_site_table(ck, facts, "C05.site-table")
     ck.not_decided("that the cursor value at each access equals the layout's offset on a run; VM/WASM flat state-word equality; `cursor back at origin after dsp` as a run-time fact")
